@@ -106,7 +106,7 @@ where
     let (mul_rq, mul_qr, div_qr, recip_mul) = ops;
     let p = |s: &str| amt::parse(s);
     let terms: Vec<A> = if thorough() { amt::alphabet_small(tier()) } else { vec![p("1"), p("17.4"), p("-2.54"), p("0")] };
-    let mults: Vec<A> = if thorough() { vec![p("1"), p("2"), p("0.5"), p("60"), p("-4"), p("1e-3")] } else { vec![p("1"), p("2"), p("0.5")] };
+    let mults: Vec<A> = if thorough() { vec![p("1"), p("2"), p("0.5"), p("60"), p("-4"), p("1e-3"), p("-1")] } else { vec![p("1"), p("2"), p("0.5"), p("-2")] };
     let operands = amt::alphabet_small(tier());
     let ut = bt.units[it];
     let mt = bt.um(it);
